@@ -183,6 +183,7 @@ func fieldStoresIn(f *ssa.Function, fld *types.Var) []*ssa.Store {
 }
 
 func checkC02(c *Ctx, r *Report, tier string) {
+	round5(c, r, "C02")
 	x := newIdxLocks(c)
 	r.Rule("C02.R1", "shard-lock discipline: every operation on a shard map of the index happens with the mutex paired with it must-held (write lock for writes)", 4)
 	r.Rule("C02.R2", "insert-if-absent / delete-if-present: every insertion into a shard map is guarded by the absent polarity of a lookup of the same key in the same map, every deletion by the present polarity, in the same critical section", 2)
@@ -441,8 +442,15 @@ func c02R2R3R6(c *Ctx, r *Report, x *idxLocks) {
 				r.OK("C02.R3", fn, cons+"-bytes", c.InstrPos(op.instr), fmt.Sprintf("bytesSize += %d·size(vertex) (mod 2^64)", int64(wantA)))
 			}
 		}
-		// R6: error variables
-		if alreadyVar != nil && notFoundVar != nil {
+		// R6: error variables (functions that address a shard map by key; a function that only ranges over the shards — a scan
+		// for any stored vertex — has no `exists` / `not found` verdict of its own)
+		keyed := false
+		for _, op := range ops {
+			if op.kind == "lookup" || op.kind == "update" || op.kind == "delete" {
+				keyed = true
+			}
+		}
+		if alreadyVar != nil && notFoundVar != nil && keyed {
 			k := 0
 			for _, ret := range returnsOf(f) {
 				last := ret.Results[len(ret.Results)-1]
@@ -703,7 +711,7 @@ func c02R4(c *Ctx, r *Report, x *idxLocks) {
 	}
 	// primitives: error return not preceded by a mutation
 	for _, f := range x.funcs {
-		if x.applyOnly(f) || len(x.shardMapOps(f)) == 0 {
+		if x.applyOnly(f) || !hasKeyedOp(x.shardMapOps(f)) {
 			continue
 		}
 		var mutIns []ssa.Instruction
@@ -892,4 +900,14 @@ func mapNonNil(g *ssa.Function, m ssa.Value, at ssa.Instruction) (bool, string) 
 		return false, "result of " + callID(&y.Call).Name + "() may be nil"
 	}
 	return false, "provenance " + m.String()
+}
+
+// hasKeyedOp: the function addresses a shard map by key (a scan over the shards is not a membership primitive).
+func hasKeyedOp(ops []mapOp) bool {
+	for _, op := range ops {
+		if op.kind == "lookup" || op.kind == "update" || op.kind == "delete" {
+			return true
+		}
+	}
+	return false
 }
